@@ -427,6 +427,8 @@ class Ctx:
             "known_findings_reproduced": sorted(self.known_hits),
             "notes": self.notes,
         }
+        if getattr(self, "coverage_extra", None):
+            cov.update(self.coverage_extra)
         if extra:
             cov.update(extra)
         ev = {
@@ -498,7 +500,34 @@ def proof_stage(ctx, targets, allow_axioms=(), props_file=None, gen_needed=()):
             ctx.notes.append("theorem %s depends on non-allow-listed axioms %s" % (th, bad))
             ok_all = False
     ctx.theorems = res["theorems"]
+    if ctx.tier == "thorough" and ok_all and os.environ.get("DV_NO_COQCHK") != "1":
+        ok_chk, listing = coqchk(ctx.pid)
+        ctx.obligation("coqchk -o re-checks Props/%s.vo and everything it depends on" % ctx.pid, ok_chk)
+        ctx.coverage_extra = {"coqchk_axioms": listing}
+        for a in listing:
+            ctx.trusted.append("coqchk -o: " + a)
+        if not ok_chk:
+            ok_all = False
     return ok_all
+
+
+def coqchk(pid, timeout=2400):
+    """Independent re-check of the compiled property file; returns (ok, axiom listing lines)."""
+    with Lock():
+        rc, out = sh("timeout %d coqchk -silent -o -Q . DV DV.Props.%s" % (timeout, pid), cwd=COQ, timeout=timeout + 30)
+    lines = []
+    grab = False
+    for line in out.split("\n"):
+        if line.startswith("* Axioms:") or line.startswith("* Theory") or line.startswith("* Constants/Inductives") or line.startswith("* Inductives") or line.startswith("* Impredicative") :
+            grab = line.startswith("* Axioms:")
+            lines.append(line.strip())
+            continue
+        if grab and line.strip():
+            lines.append("  " + line.strip())
+    ok = rc == 0 and "CONTEXT SUMMARY" in out
+    if not ok:
+        lines.append("coqchk rc=%d tail: %s" % (rc, out[-800:]))
+    return ok, lines[:60]
 
 
 def main_wrapper(fn):
